@@ -822,6 +822,253 @@ def batches(ctx):
                   "and 'all process-level clauses hold'"),
     )
 
+    # ---- 4. the whole pipeline against Model/CliRun.v ----------------------------------
+    yield from pipeline_batches(ctx)
+
+
+# ---------------------------------------------------------------------------
+# cli_pipeline: `reconcile` end to end against the pipeline model Model/CliRun.v
+# (read_input -> label_internal -> dispatch -> solver -> "Minimum cost" -> one dictionary per solution)
+
+PIPE_FILES = ["Model/CliRun.v", "Proofs/CliRunProofs.v"]
+
+PIPE_HEADER = """From Coq Require Import String Ascii.
+From SR Require Import Base.Ext Model.Entry Model.Recon Model.Label Model.Newick Model.Serial Model.CliRun.
+Fixpoint list_eqb {A} (f : A -> A -> bool) (a b : list A) : bool :=
+  match a, b with [], [] => true | x :: a', y :: b' => f x y && list_eqb f a' b' | _, _ => false end.
+Definition pair_eqb {A B} (f : A -> A -> bool) (g : B -> B -> bool) (a b : A * B) : bool := f (fst a) (fst b) && g (snd a) (snd b).
+(* the same items, in any order (JSON objects are unordered; the lists compared here are duplicate-free) *)
+Definition perm_eqb {A} (f : A -> A -> bool) (a b : list A) : bool :=
+  Nat.eqb (List.length a) (List.length b) && forallb (fun x => existsb (f x) b) a && forallb (fun y => existsb (fun x => f x y) a) b.
+Definition strs_eqb := list_eqb String.eqb.
+Definition sdict_eqb := perm_eqb (pair_eqb String.eqb String.eqb).
+Definition ldict_eqb := perm_eqb (pair_eqb String.eqb strs_eqb).
+Definition cdict_eqb := perm_eqb (pair_eqb String.eqb ext_eqb).
+Definition dri_eqb (a b : drinput) : bool :=
+  String.eqb (d_otree a) (d_otree b) && String.eqb (d_stree a) (d_stree b) && sdict_eqb (d_leafmap a) (d_leafmap b) && cdict_eqb (d_costs a) (d_costs b).
+Definition di_eqb (a b : dinput) : bool := dri_eqb (d_base a) (d_base b) && opt_eqb ldict_eqb (d_leafsyn a) (d_leafsyn b).
+Definition dro_eqb (a b : droutput) : bool := di_eqb (d_in a) (d_in b) && sdict_eqb (d_omap a) (d_omap b).
+Definition dso_eqb (a b : dsoutput) : bool := dro_eqb (d_out a) (d_out b) && ldict_eqb (d_syns a) (d_syns b) && opt_eqb Bool.eqb (d_ordered a) (d_ordered b).
+Definition obj_eqb (a b : out_obj) : bool :=
+  match a, b with OutR x, OutR y => dro_eqb x y | OutS x, OutS y => dso_eqb x y | _, _ => false end.
+(* the model's answer under ALL against what the tool did: same kind of ending, same printed minimum, same SET of objects *)
+Definition all_eqb (m e : cli_result) : bool :=
+  match m, e with
+  | CliRejected, CliRejected | CliError, CliError | CliNoSolution, CliNoSolution | CliRaise, CliRaise => true
+  | CliOk w1 c1 o1, CliOk w2 c2 o2 => Bool.eqb w1 w2 && ext_eqb c1 c2 && perm_eqb obj_eqb o1 o2
+  | _, _ => false
+  end.
+(* under ANY the tool may keep another optimal solution than the model (iteration orders): same ending, same printed
+   minimum, as many objects as the model writes (one), each of them among the model's objects under ALL *)
+Definition any_eqb (m mall e : cli_result) : bool :=
+  match m, e with
+  | CliRejected, CliRejected | CliError, CliError | CliNoSolution, CliNoSolution | CliRaise, CliRaise => true
+  | CliOk w1 c1 o1, CliOk w2 c2 o2 =>
+      Bool.eqb w1 w2 && ext_eqb c1 c2 && Nat.eqb (List.length o1) (List.length o2) &&
+      match mall with CliOk _ _ oa => forallb (fun y => existsb (fun x => obj_eqb x y) oa) o2 | _ => false end
+  | _, _ => false
+  end.
+Definition pipe_in := (string * Recon.costs * ntree string * ntree string * option (dict string) * option (dict (list string)))%type.
+Definition run_pipe (x : pipe_in) : cli_result * cli_result :=
+  let '(key, c, o, s, lm, ls) := x in
+  (cli_run (mkCli key RANY c o s lm ls), cli_run (mkCli key RALL c o s lm ls)).
+Definition pipe_eqb (m e : cli_result * cli_result) : bool :=
+  any_eqb (fst m) (snd m) (fst e) && all_eqb (snd m) (snd e).
+"""
+
+
+def gen_pipeline_case(rng, k, algo):
+    """binary documented-format input, integer unit costs; DP solvers stay inside the coherent region
+    spe + 2*sloss <= dup + 2*floss (DESIGN section 9, F-COHERENCE), lca/exh take any non-negative costs"""
+    nsp = rng.choice([2, 2, 3, 3, 4])
+    species = rng.sample(SPECIES_POOL, nsp)
+    sp = random_binary(rng, species)
+    nobj = rng.choice([2, 3, 3, 4, 4, 5]) if algo != "exh" else rng.choice([2, 3, 3, 4])
+    omitted = rng.random() < 0.25
+    leaf_species = {}
+    for i in range(nobj):
+        s = rng.choice(species)
+        shown = s
+        if omitted and rng.random() < 0.3:
+            shown = rng.choice([s.lower(), s.upper()])
+        leaf_species[f"{shown}_{i + 1}"] = s
+    leaf_names = list(leaf_species)
+    obj = random_binary(rng, leaf_names)
+    rng.shuffle(leaf_names)                                  # dictionary order of the input file != leaf order
+    leaf_species = {n: leaf_species[n] for n in leaf_names}
+    mode_o = rng.choice(["unnamed", "unnamed", "partial", "partial", "named"])
+    mode_s = rng.choice(["unnamed", "unnamed", "partial", "partial", "named"])
+    name_ancestors(rng, obj, mode_o, OBJ_ANC_LOOKALIKE, OBJ_ANC_PLAIN, set(leaf_species))
+    name_ancestors(rng, sp, mode_s, SP_ANC_LOOKALIKE, SP_ANC_PLAIN, set(species))
+    has_syn = (algo in SUPER_ALGOS and rng.random() < 0.93) or (algo in PLAIN_ALGOS and rng.random() < 0.3)
+    syn = None
+    if has_syn:
+        fams = rng.sample(["f", "g", "h", "k", "g2", "g10"], rng.choice([1, 2, 3, 3, 4]))
+        order = list(fams)
+        rng.shuffle(order)
+        syn = {}
+        for leaf in leaf_species:
+            s = [f for f in order if rng.random() < 0.7] or [rng.choice(fams)]
+            if rng.random() < 0.06:
+                rng.shuffle(s)                               # conflicting gene orders: the ordered solvers find no root order
+            syn[leaf] = s
+    while True:
+        cv = {"spe": rng.choice([0, 0, 1, 2]), "dup": rng.randint(0, 3), "hgt": rng.choice([0, 1, 1, 2, 3, "float('inf')"]),
+              "floss": rng.randint(0, 3), "sloss": rng.randint(0, 2)}
+        if algo in ("lca", "exh") or cv["spe"] + 2 * cv["sloss"] <= cv["dup"] + 2 * cv["floss"]:
+            break
+    if rng.random() < 0.15:
+        cv = {}
+    elif rng.random() < 0.3:
+        cv = {nm: v for nm, v in cv.items() if rng.random() < 0.6}
+        full = _full_costs({"costs": {nm: (float("inf") if isinstance(v, str) else v) for nm, v in cv.items()}})
+        if algo not in ("lca", "exh") and not full["spe"] + 2 * full["sloss"] <= full["dup"] + 2 * full["floss"]:
+            cv = {}
+    return {"k": k, "obj": obj, "sp": sp, "omitted": omitted, "leaf_species": leaf_species, "syn": syn,
+            "algo": algo, "costs": cv, "orient": rng.choice(["horizontal", "vertical"]), "mode": "inproc"}
+
+
+def _enc_unit(v):
+    if isinstance(v, str) or v == float("inf"):
+        return "PInf"
+    return f"(Fin {core.cZ(int(v))})"
+
+
+def enc_pipe_in(c):
+    from . import c11
+    full = {"spe": 0, "dup": 1, "hgt": 1, "floss": 1, "sloss": 1}
+    full.update(c["costs"])
+    costs = ("{| c_spe := %s; c_dup := %s; c_hgt := %s; c_floss := %s; c_sloss := %s |}"
+             % (core.cZ(full["spe"]), core.cZ(full["dup"]), _enc_unit(full["hgt"]), core.cZ(full["floss"]), core.cZ(full["sloss"])))
+    lm = None if c["omitted"] else c11.enc_sdict(list(c["leaf_species"].items()))
+    ls = None if c["syn"] is None else c11.enc_ldict(list(c["syn"].items()))
+    return cpair(cstr(c["algo"]), costs, enc_tree(c["obj"]), enc_tree(c["sp"]), copt(lm), copt(ls))
+
+
+def _enc_printed(text):
+    """the text after 'Minimum cost:' as an [ext] literal (None: not an integer or inf)"""
+    if text is None:
+        return None
+    try:
+        x = float(text)
+    except ValueError:
+        return None
+    if x == float("inf"):
+        return "PInf"
+    if x == float("-inf"):
+        return "NInf"
+    if x != x or x != int(x):
+        return None
+    return f"(Fin {core.cZ(int(x))})"
+
+
+def _enc_obj(d):
+    from . import c11
+    kind = "SO" if "syntenies" in d else "RO"
+    cd = c11.canon_dict(kind, d)
+    dro = f"(mkDRO {c11.enc_dinput(cd['input'])} {c11.enc_sdict(cd['object_species'])})"
+    if kind == "RO":
+        return f"(OutR {dro})"
+    return f"(OutS (mkDSO {dro} {c11.enc_ldict(cd['syntenies'])} {copt(None if cd['ordered'] is None else cbool(cd['ordered']))}))"
+
+
+def enc_pipe_result(r):
+    """what one run of the tool did, as a [cli_result]; anything the model has no word for is [CliOutOfModel],
+    which the comparison never accepts"""
+    status, out, err = r["status"], r["stdout"], r["stderr"]
+    if "truncated_from" in r:
+        return "CliOutOfModel"
+    if status == 2 and out == "" and "invalid choice" in err:
+        return "CliRejected"
+    if status == 1 and out == "":
+        if "Traceback" in err:
+            return "CliRaise"
+        if ERR_TEXT in err:
+            return "CliError"
+        return "CliNoSolution"
+    if status == 0 and out.strip():
+        cost = _enc_printed(printed_cost(err))
+        if cost is None:
+            return "CliOutOfModel"
+        try:
+            objs = [_enc_obj(json.loads(line)) for line in out.splitlines()]
+        except (AssertionError, TypeError, KeyError, ValueError):
+            return "CliOutOfModel"
+        return f"(CliOk {cbool(WARN_TEXT in err)} {cost} {clist(objs)})"
+    return "CliOutOfModel"
+
+
+def enc_pipe_out(c, res):
+    return cpair(enc_pipe_result(res["any"]), enc_pipe_result(res["all"]))
+
+
+def pipeline_batches(ctx):
+    rng = ctx.rng
+    quick = ctx.quick()
+    ok, out = core.build_targets([f for f in PIPE_FILES if (core.COQ / f).exists()])
+    if not ok:
+        # the pipeline model (or its proofs) no longer builds, e.g. over a regenerated dispatch table; Properties/C12.v
+        # then fails too and main.py runs every batch in oracle-only mode
+        ctx.notes.append("cli_pipeline: Model/CliRun.v / Proofs/CliRunProofs.v do not build: " + out[-600:])
+    per_algo = 45 if quick else 500
+    pcases = []
+    k = 0
+    for algo in PLAIN_ALGOS + SUPER_ALGOS:
+        for _ in range(per_algo):
+            pcases.append(gen_pipeline_case(rng, k, algo))
+            k += 1
+    # the README example with every algorithm, with and without syntenies
+    readme = {"obj": ["", [["", [["x_1", []], ["x_2", []]]], ["y_1", []]]], "sp": ["", [["X", []], ["Y", []]]],
+              "leaf_species": {"x_1": "X", "x_2": "X", "y_1": "Y"},
+              "syn": {"x_1": ["g1", "g2", "g3"], "x_2": ["g1", "g3", "g4"], "y_1": ["g1", "g2", "g3", "g4"]}}
+    for algo in PLAIN_ALGOS + SUPER_ALGOS + ("spfs",):
+        for with_syn in (True, False):
+            pcases.append(json.loads(json.dumps(
+                {"k": k, "obj": readme["obj"], "sp": readme["sp"], "omitted": not with_syn, "leaf_species": readme["leaf_species"],
+                 "syn": readme["syn"] if with_syn else None, "algo": algo, "costs": {}, "orient": "horizontal", "mode": "inproc"})))
+            k += 1
+
+    seen = {"endings": {}, "objects_compared": 0, "max_objects_all": 0}
+    ctx.dist["cli_pipeline_observed"] = seen
+
+    def enc_out_counted(c, res):          # runs in the parent process: the observations survive
+        lit = enc_pipe_out(c, res)
+        for pol in ("any", "all"):
+            e = enc_pipe_result(res[pol]).split(" ")[0].lstrip("(")
+            seen["endings"][e] = seen["endings"].get(e, 0) + 1
+        n = len(res["all"]["stdout"].splitlines())
+        seen["objects_compared"] += n + len(res["any"]["stdout"].splitlines())
+        seen["max_objects_all"] = max(seen["max_objects_all"], n)
+        return lit
+
+    def oracle_pipe(c, res):
+        if not (is_binary(c["obj"]) and is_binary(c["sp"])):
+            return True, "polytomy: outside the pipeline model"
+        return oracle_cli(c, res)
+
+    ctx.dist["cli_pipeline"] = {
+        "cases": len(pcases),
+        "by_algorithm": {a: sum(1 for c in pcases if c["algo"] == a) for a in sorted({c["algo"] for c in pcases})},
+        "with_syntenies": sum(1 for c in pcases if c["syn"] is not None),
+        "mapping_omitted": sum(1 for c in pcases if c["omitted"]),
+        "with_unnamed_ancestor": sum(1 for c in pcases if any(unnamed(a) for a in preorder(c["obj"]) + preorder(c["sp"]))),
+        "with_cost_options": sum(1 for c in pcases if c["costs"]),
+        "infinite_transfer_cost": sum(1 for c in pcases if isinstance(c["costs"].get("hgt"), str)),
+    }
+    yield Batch(
+        name="cli_pipeline", header=PIPE_HEADER, run="run_pipe", eqb="pipe_eqb",
+        ty_in="pipe_in", ty_out="cli_result * cli_result",
+        cases=pcases, impl=impl_cli, enc_in=enc_pipe_in, enc_out=enc_out_counted,
+        oracle=oracle_pipe,
+        nontrivial=lambda c, res: res["all"]["status"] == 0 and bool(res["all"]["stdout"].strip()),
+        exhaustive=False, shard=40,
+        describe=("`reconcile` in-process under both policies on random binary documented-format inputs (2-5 object leaves on 2-4 species, unnamed / partially named / "
+                  "look-alike ancestors, leaf mapping given or by naming convention, 1-4 gene families, integer unit costs, transfer cost possibly infinite; the DP solvers "
+                  "inside spe + 2 sloss <= dup + 2 floss), all seven algorithms, against Model/CliRun.v: same ending (status 0 / refused / no solution / exception), "
+                  "same printed minimum cost, under ALL the same SET of output dictionaries (items of every dictionary compared, Newick strings and syntenies literally), "
+                  "under ANY one dictionary that belongs to the model's ALL set"),
+    )
+
 
 # ---------------------------------------------------------------------------
 # known finding F-COHERENCE seen through the command line: outside the coherent region a DP solver may
